@@ -168,17 +168,6 @@ impl SearchFilters {
     }
 
     pub fn insert_nand(self, filter: Filter) -> Self {
-        let mut updated_fitler = self.nor_filters;
-        updated_fitler.insert(std::mem::discriminant(&filter), filter);
-
-        Self {
-            filters: self.filters,
-            nand_filters: self.nand_filters,
-            nor_filters: updated_fitler,
-        }
-    }
-
-    pub fn insert_nor(self, filter: Filter) -> Self {
         let mut updated_fitler = self.nand_filters;
         updated_fitler.insert(std::mem::discriminant(&filter), filter);
 
@@ -189,11 +178,25 @@ impl SearchFilters {
         }
     }
 
+    pub fn insert_nor(self, filter: Filter) -> Self {
+        let mut updated_fitler = self.nor_filters;
+        updated_fitler.insert(std::mem::discriminant(&filter), filter);
+
+        Self {
+            filters: self.filters,
+            nand_filters: self.nand_filters,
+            nor_filters: updated_fitler,
+        }
+    }
+
     fn special_filter_to_bytes(name: &str, filters: &HashMap<Discriminant<Filter>, Filter>) -> Vec<u8> {
         let mut bytes = Vec::new();
 
         if !filters.is_empty() {
+            // \\nand\\N or \\nor\\N, followed by the N filters of the group
+            bytes.extend([b'\\']);
             bytes.extend(name.as_bytes());
+            bytes.extend([b'\\']);
             bytes.extend(filters.len().to_string().as_bytes());
             for filter in filters.values() {
                 bytes.extend(filter.to_bytes());
